@@ -215,7 +215,12 @@ func (s *pxState) originHandler(w http.ResponseWriter, r *http.Request) {
 			w.WriteHeader(304)
 			return
 		}
-		if ims := r.Header.Get("If-Modified-Since"); ims != "" && cp.lm != "" && ims == cp.lm && r.Header.Get("If-None-Match") == "" {
+		sameInstant := func(a, b string) bool {
+			ta, ea := http.ParseTime(a)
+			tb, eb := http.ParseTime(b)
+			return a == b || (ea == nil && eb == nil && ta.Equal(tb))
+		}
+		if ims := r.Header.Get("If-Modified-Since"); ims != "" && cp.lm != "" && sameInstant(ims, cp.lm) && r.Header.Get("If-None-Match") == "" {
 			w.WriteHeader(304)
 			return
 		}
@@ -491,8 +496,16 @@ func init() {
 							if strings.HasPrefix(p[1], "x") {
 								rs.lm = unhx(p[1][1:])
 							} else {
-								off, _ := strconv.Atoi(p[1])
-								rs.lm = s.base.Add(time.Duration(off) * time.Second).UTC().Format(http.TimeFormat)
+								// "<sec>" IMF-fixdate; "<sec>@850" / "<sec>@asc": the two obsolete but legal HTTP-date forms
+								spec := strings.SplitN(p[1], "@", 2)
+								off, _ := strconv.Atoi(spec[0])
+								layout := http.TimeFormat
+								if len(spec) == 2 && spec[1] == "850" {
+									layout = "Monday, 02-Jan-06 15:04:05 GMT"
+								} else if len(spec) == 2 && spec[1] == "asc" {
+									layout = time.ANSIC
+								}
+								rs.lm = s.base.Add(time.Duration(off) * time.Second).UTC().Format(layout)
 							}
 						case "cc":
 							for _, l := range strings.Split(p[1], "|") {
@@ -766,7 +779,7 @@ func genProxyTrace(c runCfg, o *Out, emit func(...string)) {
 			case 0:
 				fields = append(fields, "etag="+hx(fmt.Sprintf("\"e%d\"", ver)))
 			case 1:
-				fields = append(fields, "lm="+itoa(-1000*ver))
+				fields = append(fields, "lm="+itoa(-1000*ver)+[]string{"", "", "@850", "@asc"}[r.Intn(4)])
 			case 2:
 				fields = append(fields, "etag="+hx(fmt.Sprintf("W/\"w%d\"", ver)), "lm="+itoa(-500*ver))
 			case 3:
